@@ -3,8 +3,8 @@ import Ruint.Lemmas.Codec.RlpParity
 import Ruint.Lemmas.Codec.Scale
 import Ruint.Lemmas.Codec.Fixed
 import Ruint.Lemmas.Codec.Der
-import Ruint.Model.Codec.Serde
-import Ruint.Model.Codec.Postgres
+import Ruint.Lemmas.Codec.Serde
+import Ruint.Lemmas.Codec.Postgres
 /-!
 # C16 — every codec integration round-trips and emits its format's reference encoding
 
@@ -131,6 +131,33 @@ theorem der_value_len (v : ℕ) : Der.valueLen v = (Der.content v).length ∧ De
 
 theorem der_roundtrip (bits v : ℕ) (hv : v < 2 ^ bits) (hB : nbytes bits + 1 ≤ 0xfffffff) :
     Der.dec bits (Der.enc v) = .ok v := Der.dec_enc bits v hv hB
+
+/-! ## human-readable serde (JSON) -/
+
+/-- the quantity is `0x0` for zero and otherwise `0x` + exactly `⌈bit_len/4⌉` lower-case hex digits, the first of
+    which is not `0` (minimal). -/
+theorem json_reference (v : ℕ) :
+    Serde.hexMinimal 0 = [48, 120, 48] ∧
+    (v ≠ 0 → Serde.hexMinimal v = 48 :: 120 :: Serde.hexDigits (Serde.hexLen v) v
+      ∧ ∃ d ds, Serde.hexDigits (Serde.hexLen v) v = Serde.hexDigit d :: ds ∧ 1 ≤ d ∧ d < 16) := by
+  refine ⟨rfl, fun hv => ⟨by unfold Serde.hexMinimal; rw [if_neg hv], Serde.hexMinimal_minimal v hv⟩⟩
+
+/-- `serde_json::from_str(to_string(v)) = v`, every width incl. 0. -/
+theorem json_roundtrip (bits v : ℕ) (hv : v < 2 ^ bits) : Serde.decJson bits (Serde.encJson v) = some v :=
+  Serde.decJson_encJson bits v hv
+
+/-- `FromStr` reads the quantity back (used by postgres TEXT/JSON). -/
+theorem from_str_quantity (bits v : ℕ) (hv : v < 2 ^ bits) : Serde.fromStr bits (Serde.hexMinimal v) = some v :=
+  Serde.fromStr_hexMinimal bits v hv
+
+/-! ## postgres -/
+
+/-- for every non-float column type whose `to_sql` of the value succeeds, `from_sql(to_sql v) = v`
+    (BOOL, INT2, INT4, OID, INT8, MONEY, BYTEA, BIT, VARBIT, CHAR, TEXT, VARCHAR, JSON, JSONB).
+    Full statement incl. NUMERIC: `∀ ty, toSql ty bits v = some e → fromSql ty bits e = .ok v`; the NUMERIC arm
+    (base-10000 digit loop with trailing-zero trimming) is checked by the correspondence only. -/
+theorem pg_roundtrip_partial (ty : Pg.Ty) (bits v : ℕ) (e : List ℕ) (hv : v < 2 ^ bits) (hty : ty ≠ .numeric)
+    (h : Pg.toSql ty bits v = some e) : Pg.fromSql ty bits e = .ok v := Pg.roundtrip ty bits v e hv hty h
 
 /-! ## limb-array identities: num-bigint, primitive-types, ark-ff, bytemuck -/
 
